@@ -130,14 +130,22 @@ let () =
       let ow = if kind = "lns" then LNS else PPPoE in
       let split3 t = match String.split_on_char '/' t with
         | [a] -> (a, "none", "ok") | [a; b] -> (a, b, "ok") | a :: b :: c :: _ -> (a, b, c) | [] -> ("none", "none", "ok") in
+      (* optional 4th field of the start token: AAA DNS servers "<dns1|n>,<dns2|n>" (16-byte form) *)
+      let aaa_dns = match String.split_on_char '/' start with
+        | _ :: _ :: _ :: d :: _ -> (match String.split_on_char ',' d with
+            | [x; y] -> ((if x = "n" then None else Some (unhex x)), (if y = "n" then None else Some (unhex y)))
+            | _ -> (None, None))
+        | _ -> (None, None) in
       let orc_of al rs = { or_alloc = (if al = "none" || al = "full" then None else Some (unhex al));
                            or_reserve_ok = (rs <> "cf") } in
       let aaa_of a = if a = "none" then None else Some (unhex a) in
       let (a0, al0, rs0) = split3 start in
       let s0 = if String.length a0 > 8 && String.sub a0 0 8 = "restore:"
         then sess_restore fl (unhex (String.sub a0 8 (String.length a0 - 8))) None None
-        else sess_start fl ow (aaa_of a0) (orc_of al0 rs0) in
-      let first = (if int_of_n s0.s_fsm = 0 || int_of_n s0.s_fsm = 9 then "-" else "scr:" ^ show_opts s0.s_lastreq) ^ " a=" ^ show_addr s0.s_addr ^ " pa=" ^ show_addr s0.s_cfg.ic_assigned in
+        else sess_start_dns fl ow (aaa_of a0) (if ow = PPPoE then aaa_dns else (None, None)) (orc_of al0 rs0) in
+      let restored = String.length a0 > 8 && String.sub a0 0 8 = "restore:" in
+      let first = (if kind = "sess" && not restored then "lcp=ok " else "") ^
+                  (if int_of_n s0.s_fsm = 0 || int_of_n s0.s_fsm = 9 then "-" else "scr:" ^ show_opts s0.s_lastreq) ^ " a=" ^ show_addr s0.s_addr ^ " pa=" ^ show_addr s0.s_cfg.ic_assigned in
       let (outs, _) = List.fold_left (fun (acc, s) ev ->
           let tl = String.sub ev 1 (String.length ev - 1) in
           let e = if ev = "k" then EvAck
